@@ -32,12 +32,26 @@ def main():
     os.makedirs(dst, exist_ok=True)
     meta = {"name": name, "property": pid, "ran_at": time.strftime("%Y-%m-%d %H:%M:%S"), "steps": {}}
     patch = os.path.join(out, "patch.diff")
-    if not os.path.exists(patch):
+    demo_src = {}  # repo-relative demo path -> file to copy from
+    if os.path.exists(patch) and os.path.isdir(os.path.join(src, "wt")):
+        # locate demo files: untracked files in the agent's worktree
+        rc, o = sh("git status --porcelain --untracked-files=all", cwd=os.path.join(src, "wt"))
+        for l in o.splitlines():
+            if l.startswith("?? ") and l.endswith(".go"):
+                demo_src[l[3:]] = os.path.join(src, "wt", l[3:])
+    elif os.path.exists(os.path.join(dst, "patch.diff")):
+        # re-run of an already recorded seed: everything is under /verif/seeded/<name>
+        patch = os.path.join(dst, "patch.diff.rerun")
+        shutil.copy(os.path.join(dst, "patch.diff"), patch)
+        out = dst
+        old = json.load(open(os.path.join(dst, "meta.json")))
+        for d in old.get("demo_files", []):
+            demo_src[d] = os.path.join(dst, os.path.basename(d) + ".keep")
+            shutil.copy(os.path.join(dst, os.path.basename(d)), demo_src[d])
+    else:
         print("no patch.diff in", out)
         return 2
-    # locate demo files: untracked files in the agent's worktree
-    rc, o = sh("git status --porcelain --untracked-files=all", cwd=os.path.join(src, "wt"))
-    demos = [l[3:] for l in o.splitlines() if l.startswith("?? ") and l.endswith(".go")]
+    demos = sorted(demo_src)
     sh("git -C /repo worktree remove --force %s" % wt)
     rc, o = sh("git -C /repo worktree add -f %s HEAD" % wt)
     if rc != 0:
@@ -73,8 +87,9 @@ def main():
         demo_with = demo_without = None
         for d in demos:
             os.makedirs(os.path.dirname(os.path.join(wt, d)), exist_ok=True)
-            shutil.copy(os.path.join(src, "wt", d), os.path.join(wt, d))
-            shutil.copy(os.path.join(src, "wt", d), os.path.join(dst, os.path.basename(d)))
+            shutil.copy(demo_src[d], os.path.join(wt, d))
+            if os.path.abspath(demo_src[d]) != os.path.abspath(os.path.join(dst, os.path.basename(d)) + ".keep"):
+                shutil.copy(demo_src[d], os.path.join(dst, os.path.basename(d)))
         if demos:
             dpk = sorted({"./" + os.path.dirname(d) + "/" for d in demos})
             if goctl:
@@ -107,9 +122,16 @@ def main():
         shutil.rmtree(os.path.join(V, "build", pid + "-seed-" + name), ignore_errors=True)
         shutil.rmtree(os.path.join(V, "work", pid + "-seed-" + name), ignore_errors=True)
         shutil.rmtree(os.path.join(V, "replays", pid + "-seed-" + name), ignore_errors=True)
-    shutil.copy(patch, os.path.join(dst, "patch.diff"))
-    if os.path.exists(os.path.join(out, "notes.md")):
-        shutil.copy(os.path.join(out, "notes.md"), os.path.join(dst, "notes.md"))
+    if patch.endswith(".rerun"):
+        os.remove(patch)
+        for d in demos:
+            k = os.path.join(dst, os.path.basename(d) + ".keep")
+            if os.path.exists(k):
+                os.remove(k)
+    else:
+        shutil.copy(patch, os.path.join(dst, "patch.diff"))
+        if os.path.exists(os.path.join(out, "notes.md")):
+            shutil.copy(os.path.join(out, "notes.md"), os.path.join(dst, "notes.md"))
     # keep earlier tier results
     mp = os.path.join(dst, "meta.json")
     if os.path.exists(mp):
